@@ -32,10 +32,13 @@ import time
 
 LEVEL = 'proof'
 LEANCHECKER = True
-RULE = ("a case is one real BANE run (rows, cols, step, box, cores, nslice, mask, schedule, fault) in a child process "
-        "under a watchdog; non-trivial = at least 2 realised stripes and (a forced arrival order at a synchronisation "
+RULE = ("a case is one real BANE run (rows, cols, step, box, cores, nslice, mask, image content, schedule, fault) in a child "
+        "process under a watchdog; image content in {noise+scattered NaN, all finite, NaN block, one or two fully blank "
+        "stripes including their halo rows, all-NaN, constant}; faults are injected per (stripe, phase) in BOTH orders "
+        "(others already at the barrier / fault first while the others are held before their next barrier); "
+        "non-trivial = at least 2 realised stripes and (a forced arrival order at a synchronisation "
         "point, or an injected fault, or realised stripes > requested cores/stripes); distinct by (layout, cores, mask, "
-        "schedule, fault); layout cases (rows, step, nslice) are counted separately in the histogram")
+        "content, schedule, fault); layout cases (rows, step, nslice) are counted separately in the histogram")
 ASSUMPTIONS = [
     "the OS scheduler, fork, /dev/shm and the multiprocessing resource tracker are observed, not modelled; the barrier "
     "state machine is modelled from CPython 3.12 threading.Barrier (enter / release / exit / reset / abort under one lock)",
@@ -180,15 +183,31 @@ HERE = os.path.abspath(__file__)
 PY = sys.executable or '/venv/bin/python'
 
 
-def make_fits(path, rows, cols, seed, nan_frac=0.03):
+def make_fits(path, rows, cols, seed, content='noise'):
+    """content: noise (gradient + noise + 3 % scattered NaN) | finite (no NaN) | nanblock (a rectangular NaN block)
+    | blank:<lo>:<hi> (rows [lo,hi) entirely NaN: a stripe together with the half-box of rows it loads either side)
+    | allnan | const"""
     import numpy as np
     from astropy.io import fits
     rs = np.random.RandomState(seed)
     yy, xx = np.mgrid[0:rows, 0:cols]
     img = rs.normal(0.0, 1.0, size=(rows, cols)) + 0.05 * yy + 0.02 * xx
-    if nan_frac:
-        m = rs.uniform(size=img.shape) < nan_frac
+    if content == 'noise':
+        m = rs.uniform(size=img.shape) < 0.03
         img[m] = np.nan
+    elif content == 'finite':
+        pass
+    elif content == 'nanblock':
+        img[rows // 4: rows // 4 + 6, cols // 4: cols // 4 + 10] = np.nan
+    elif content.startswith('blank:'):
+        _, lo, hi = content.split(':')
+        img[int(lo):int(hi), :] = np.nan
+    elif content == 'allnan':
+        img[:, :] = np.nan
+    elif content == 'const':
+        img[:, :] = 3.0
+    else:
+        raise ValueError(content)
     hdu = fits.PrimaryHDU(img.astype(np.float32))
     hdu.header['BUNIT'] = 'Jy/beam'
     hdu.writeto(path, overwrite=True)
@@ -338,6 +357,8 @@ def run_bane(workdir, tag, fits_path, shape, step, box, cores, nslice, mask, sch
                     last_progress = now
                     if settle == 'gap':
                         settle_until = now + 0.03
+                    elif settle == 'pause':
+                        settle_until = now + 0.25
                     elif settle == 'next':
                         settle_next = (y, sum(1 for yy, _ in arrived if yy == y))
                         settle_until = now + 0.002
@@ -618,7 +639,7 @@ def sched_fast(n, order1, x, mask):
 
 
 def sched_fault(n, x, ph, mask):
-    """the others reach (and enter) the barrier first, the faulty stripe comes last"""
+    """others first: the other stripes reach (and enter) the barrier first, the faulty stripe comes last"""
     others = [i for i in range(n) if i != x]
     s = []
     if ph in ('p1', 'b1'):
@@ -630,24 +651,48 @@ def sched_fault(n, x, ph, mask):
     return s
 
 
+def sched_fault_first(n, x, ph, mask):
+    """fault first: the faulty stripe raises while every other stripe is still held *before* its next barrier
+    (at b1 for a fault at p1/b1, at a1 for a fault at a1, at b2 for a fault at b2, at a2 for a2/mk); only when the
+    failure has been dealt with (pause) are the others let go — they reach the barrier after the failure"""
+    others = [i for i in range(n) if i != x]
+    hold = {'p1': 'b1', 'b1': 'b1', 'a1': 'a1', 'b2': 'b2', 'a2': 'a2', 'mk': 'a2'}[ph]
+    if not mask and hold in ('b2', 'a2'):
+        return [(x, ph, 'pause')]
+    s = []
+    if ph == 'mk':
+        s.append((x, 'a2', 'next'))
+    s.append((x, ph, 'pause'))
+    s += [(i, hold, 'gap') for i in others]
+    return s
+
+
 class Config(object):
-    def __init__(self, rows, cols, step, box, cores, nslice, mask, entry='mc'):
+    def __init__(self, rows, cols, step, box, cores, nslice, mask, entry='mc', content='noise', light=False):
         self.rows, self.cols, self.step, self.box = rows, cols, step, box
         self.cores, self.nslice, self.mask, self.entry = cores, nslice, mask, entry
+        self.content, self.light = content, light
 
     def d(self):
         return dict(rows=self.rows, cols=self.cols, step=self.step, box=self.box, cores=self.cores,
-                    nslice=self.nslice, mask=self.mask, entry=self.entry)
+                    nslice=self.nslice, mask=self.mask, entry=self.entry, content=self.content)
+
+    def with_cores(self, cores):
+        return Config(self.rows, self.cols, self.step, self.box, cores, self.nslice, self.mask, self.entry,
+                      self.content, self.light)
 
     @staticmethod
     def of(d):
-        return Config(d['rows'], d['cols'], d['step'], d['box'], d['cores'], d['nslice'], d['mask'], d.get('entry', 'mc'))
+        return Config(d['rows'], d['cols'], d['step'], d['box'], d['cores'], d['nslice'], d['mask'], d.get('entry', 'mc'),
+                      d.get('content', 'noise'))
 
 
 def do_run(ctx, work, tag, cfg, schedule=None, faults=(), hook=True, watchdog=WATCHDOG):
-    fpath = os.path.join(work, f'img_{cfg.rows}_{cfg.cols}.fits')
+    fpath = os.path.join(work, f"img_{cfg.rows}_{cfg.cols}_{cfg.content.replace(':', '-')}.fits")
     if not os.path.exists(fpath):
-        make_fits(fpath, cfg.rows, cfg.cols, seed=cfg.rows * 1000 + cfg.cols)
+        tmp = fpath + f'.{os.getpid()}.{tag}.tmp'
+        make_fits(tmp, cfg.rows, cfg.cols, seed=cfg.rows * 1000 + cfg.cols, content=cfg.content)
+        os.replace(tmp, fpath)
     r = run_bane(work, tag, fpath, (cfg.rows, cfg.cols), (cfg.step, cfg.step), (cfg.box, cfg.box), cfg.cores,
                  cfg.nslice, cfg.mask, schedule=schedule, faults=faults, hook=hook, entry=cfg.entry, watchdog=watchdog,
                  patience=max(0.35, watchdog / 20.0))
@@ -687,7 +732,13 @@ def check_maps(r, cfg):
     if bkg.shape != img.shape or rms.shape != img.shape:
         return f"map shape {bkg.shape} != image shape {img.shape}"
     bad_in = ~np.isfinite(img)
-    if cfg.mask:
+    spread = cfg.content.startswith('blank:') or cfg.content in ('nanblock', 'allnan')
+    if cfg.mask and spread:
+        # an empty box gives a NaN grid node, which the interpolation spreads to finite pixels (C06's business);
+        # here: every non-finite input pixel is masked
+        if (np.isfinite(bkg) & bad_in).any() or (np.isfinite(rms) & bad_in).any():
+            return "a non-finite input pixel is not masked in the maps"
+    elif cfg.mask:
         if not np.array_equal(~np.isfinite(bkg), bad_in) or not np.array_equal(~np.isfinite(rms), bad_in):
             rows = sorted(set(np.where((~np.isfinite(rms)) != bad_in)[0].tolist()))[:6]
             return f"mask of the maps differs from the non-finite pixels of the input (rows {rows})"
@@ -743,7 +794,7 @@ def judge(ctx, cfg, r, schedule, faults, hookmode, ref, trace_out=None, pinned_o
             ctx.fail('spec', case, err, dict(sig_base, what='maps'))
             ok = False
         h = res.get('hash')
-        key = (cfg.rows, cfg.cols, cfg.step, cfg.box, cfg.mask, json.dumps(regs))
+        key = (cfg.rows, cfg.cols, cfg.step, cfg.box, cfg.mask, cfg.content, json.dumps(regs))
         if key not in ref:
             ref[key] = (h, case)
         elif ref[key][0] != h:
@@ -771,17 +822,26 @@ def judge(ctx, cfg, r, schedule, faults, hookmode, ref, trace_out=None, pinned_o
 
 
 def plan_runs(ctx, cfgs, thorough):
-    """list of (cfg, n_expected, schedule, faults, hookmode, label)"""
+    """list of (cfg, schedule, faults, hookmode, label)"""
     rng = ctx.rng
     plan = []
     for cfg, n in cfgs:
         plan.append((cfg, None, (), 'off', 'free-nohook'))
         plan.append((cfg, None, (), 'log', 'free-hook'))
-        if n >= 2 and cfg.nslice is not None:
+        if n >= 2 and cfg.nslice is not None and not cfg.light:
             for extra in ((1, 3) if thorough else (2,)):
-                c2 = Config(cfg.rows, cfg.cols, cfg.step, cfg.box, max(n, cfg.cores) + extra, cfg.nslice, cfg.mask, cfg.entry)
-                plan.append((c2, None, (), 'off', f'cores+{extra}'))
+                plan.append((cfg.with_cores(max(n, cfg.cores) + extra), None, (), 'off', f'cores+{extra}'))
         if n < 2 or n > 4:
+            continue
+        allp = list(itertools.permutations(range(n)))
+        if cfg.light and not thorough:
+            # content variants: a couple of forced orders, one fast stripe, a few faults in both orders
+            for _ in range(2):
+                plan.append((cfg, sched_orders(n, rng.choice(allp), rng.choice(allp), cfg.mask), (), 'sched', 'orders'))
+            plan.append((cfg, sched_fast(n, rng.choice(allp), rng.randrange(n), cfg.mask), (), 'sched', 'fast-stripe'))
+            for x, ph in rng.sample([(x, ph) for x in range(n) for ph in PHASES], 2):
+                plan.append((cfg, sched_fault(n, x, ph, cfg.mask), ((x, ph),), 'sched', 'fault-others-first'))
+                plan.append((cfg, sched_fault_first(n, x, ph, cfg.mask), ((x, ph),), 'sched', 'fault-first'))
             continue
         if n <= 3 or thorough:
             k1, k2 = 24, 24
@@ -792,15 +852,17 @@ def plan_runs(ctx, cfgs, thorough):
             for o2 in (perms_sample(rng, n, k2) if cfg.mask else [tuple(range(n))]):
                 plan.append((cfg, sched_orders(n, o1, o2, cfg.mask), (), 'sched', 'orders'))
         for x in range(n):
-            o1 = rng.choice(list(itertools.permutations(range(n))))
+            o1 = rng.choice(allp)
             plan.append((cfg, sched_fast(n, o1, x, cfg.mask), (), 'sched', 'fast-stripe'))
         fl = [(x, ph) for x in range(n) for ph in PHASES]
         if not (thorough or n == 2):
-            fl = rng.sample(fl, 6)
+            # always the fault at p1 with all the others still held before b1, plus a sample
+            fl = [(rng.randrange(n), 'p1')] + rng.sample([f for f in fl if f[1] != 'p1'], 5)
         for x, ph in fl:
-            plan.append((cfg, sched_fault(n, x, ph, cfg.mask), ((x, ph),), 'sched', 'fault'))
+            plan.append((cfg, sched_fault(n, x, ph, cfg.mask), ((x, ph),), 'sched', 'fault-others-first'))
+            plan.append((cfg, sched_fault_first(n, x, ph, cfg.mask), ((x, ph),), 'sched', 'fault-first'))
     # the most diagnostic runs first (the plan is executed in chunks and stops early once something went wrong)
-    prio = {'free-nohook': 0, 'free-hook': 0, 'fault': 1, 'fast-stripe': 1, 'orders': 3}
+    prio = {'free-nohook': 0, 'free-hook': 0, 'fault-first': 1, 'fault-others-first': 1, 'fast-stripe': 1, 'orders': 3}
     plan = [p for _, p in sorted(enumerate(plan), key=lambda kp: (prio.get(kp[1][4], 2), kp[0]))]
     return plan
 
@@ -928,6 +990,15 @@ QUICK_CFGS = [
     (Config(108, 24, 49, 98, 2, 2, True), 3),     # float width 53 (exact 54): realised 3 > 2
     (Config(30, 24, 8, 24, 1, 5, True), 1),       # cores == 1 forces one stripe
     (Config(56, 24, 8, 24, 2, 7, True, 'filter_image'), 7),
+    # ---- image content (stripes of 20 rows, half-box 12: a blank stripe *with its halo*) ----
+    (Config(60, 24, 8, 24, 3, 3, True, content='blank:0:32', light=True), 3),     # first stripe + halo blank
+    (Config(60, 24, 8, 24, 3, 3, True, content='blank:8:52', light=True), 3),     # middle stripe + halo blank
+    (Config(60, 24, 8, 24, 3, 3, False, content='blank:28:60', light=True), 3),   # last stripe blank, mask off
+    (Config(64, 24, 8, 24, 4, 4, True, content='blank:0:44', light=True), 4),     # two blank stripes of four
+    (Config(40, 24, 8, 24, 2, 2, True, content='allnan', light=True), 2),
+    (Config(40, 24, 8, 24, 2, 2, True, content='const', light=True), 2),
+    (Config(40, 24, 8, 24, 2, 2, True, content='finite', light=True), 2),
+    (Config(40, 24, 8, 24, 2, 2, True, content='nanblock', light=True), 2),
 ]
 
 LAYOUT_CORPUS = [(100, 16, 3, 3), (100, 16, 2, 4), (108, 49, 2, 2), (7, 1, 4, 4), (1, 16, 4, 4), (5, 16, 8, None),
@@ -965,7 +1036,11 @@ def search(ctx):
         cores = rng.randint(1, 4)
         ns = rng.choice([None, rng.randint(1, 6)])
         step = rng.choice([4, 8, 16])
-        cfg = Config(rng.randint(20, 120), 24, step, 3 * step, cores, ns, rng.random() < 0.8)
+        rows = rng.randint(20, 120)
+        lo = rng.randint(0, rows - 1)
+        cfg = Config(rows, 24, step, 3 * step, cores, ns, rng.random() < 0.8,
+                     content=rng.choice(['noise', 'noise', 'finite', 'allnan', 'const', f'blank:{lo}:{rng.randint(lo + 1, rows)}',
+                                         f'blank:0:{rng.randint(1, rows)}']))
         plan.append((cfg, None, (), 'log', 'search'))
     saved = ctx.driver_ok
     execute(ctx, plan)
